@@ -98,6 +98,69 @@ def run(ctx, rep):
         rep.ok("C18.1", cons, "positional and keyword arguments together raise JaqalError", call.loc())
     else:
         rep.violation("C18.1", cons, "a call mixing positional and keyword arguments is not rejected", call.loc())
+    # the three branches are selected by (args, kwargs) exactly: positional iff args and not kwargs, keyword iff
+    # kwargs and not args, rejection iff both -- decided by evaluating the branch tests over the four combinations
+    def ev(t, env):
+        if isinstance(t, ast.Name) and t.id in env:
+            return env[t.id]
+        if isinstance(t, ast.UnaryOp) and isinstance(t.op, ast.Not):
+            v = ev(t.operand, env)
+            return None if v is None else (not v)
+        if isinstance(t, ast.BoolOp):
+            vals = [ev(v, env) for v in t.values]
+            if any(v is None for v in vals):
+                return None
+            return all(vals) if isinstance(t.op, ast.And) else any(vals)
+        return None
+    chain = None
+    for st in iter_stmts(call.body):
+        if isinstance(st, ast.If) and {"args", "kwargs"} & names_in(st.test):
+            chain = st
+            break
+    cons_b = construct_of(call, "branch-selection")
+    if chain is None:
+        rep.undecided("C18.1", cons_b, "no if/elif chain over args and kwargs found", call.loc())
+    else:
+        branches = []
+        node = chain
+        while isinstance(node, ast.If):
+            branches.append(node)
+            node = node.orelse[0] if len(node.orelse) == 1 and isinstance(node.orelse[0], ast.If) else None
+
+        def taken(env):
+            for i, b in enumerate(branches):
+                v = ev(b.test, env)
+                if v is None:
+                    return None
+                if v:
+                    return i
+            return len(branches)
+
+        def kind(b):
+            if b.body and all(isinstance(x, ast.Raise) for x in b.body):
+                return "reject"
+            txt = ast.unparse(ast.Module(body=b.body, type_ignores=[]))
+            if "kwargs" in txt:
+                return "keyword"
+            if "args" in txt:
+                return "positional"
+            return "other"
+        want = {(True, False): "positional", (False, True): "keyword", (True, True): "reject"}
+        problems = []
+        for (a_, k_), w in want.items():
+            i = taken({"args": a_, "kwargs": k_})
+            if i is None:
+                problems = None
+                break
+            got = kind(branches[i]) if i < len(branches) else "none"
+            if got != w:
+                problems.append(f"args={'given' if a_ else 'none'}, kwargs={'given' if k_ else 'none'} takes the {got} branch instead of the {w} one")
+        if problems is None:
+            rep.undecided("C18.1", cons_b, "branch tests are not boolean combinations of args and kwargs", call.loc())
+        elif problems:
+            rep.violation("C18.1", cons_b, "; ".join(problems) + ": a call mixing positional and keyword arguments is not rejected (some arguments are silently ignored)", f"{call.path}:{chain.lineno}")
+        else:
+            rep.ok("C18.1", cons_b, "positional iff only args, keyword iff only kwargs, rejection when both", f"{call.path}:{chain.lineno}")
     # unknown keyword names are rejected
     cons = construct_of(call, "unknown-keywords-rejected")
     leftover = any(isinstance(st, ast.If) and isinstance(st.test, ast.Name) and st.test.id == "kwargs" and any(isinstance(s, ast.Raise) for s in st.body) for st in iter_stmts(call.body))
